@@ -270,6 +270,43 @@ def _on_alarm(signum, frame):  # noqa: ANN001, ARG001
     raise RenderTimeout
 
 
+_TAG_LOADERS: list = []
+
+
+def _tag_loader_classes() -> list:
+    if not _TAG_LOADERS:
+        from liquid2.builtin.loaders.mixins import CachingLoaderMixin
+        from liquid2.exceptions import TemplateNotFoundError
+        from liquid2.loader import BaseLoader, TemplateSource
+
+        class TagLoader(BaseLoader):
+            DIRS = {"extends": "layouts", "include": "snippets", "render": "snippets"}
+
+            def __init__(self, store: dict[str, str]) -> None:
+                super().__init__()
+                self.store = store
+
+            def _find(self, name: str, kwargs: dict) -> TemplateSource:
+                try:
+                    return TemplateSource(self.store[self.DIRS.get(kwargs.get("tag"), "pages") + "/" + name], name, None)
+                except KeyError:
+                    raise TemplateNotFoundError(name) from None
+
+            def get_source(self, env, template_name, *, context=None, **kwargs):  # noqa: ANN001, ANN003, ANN201, ARG002
+                return self._find(template_name, kwargs)
+
+            async def get_source_async(self, env, template_name, *, context=None, **kwargs):  # noqa: ANN001, ANN003, ANN201, ARG002
+                return self._find(template_name, kwargs)
+
+        class CachingTagLoader(CachingLoaderMixin, TagLoader):
+            def __init__(self, store: dict[str, str]) -> None:
+                super().__init__(auto_reload=True, namespace_key="", capacity=300)
+                TagLoader.__init__(self, store)
+
+        _TAG_LOADERS.extend([TagLoader, CachingTagLoader])
+    return _TAG_LOADERS
+
+
 class Runner:
     """Runs cases on the real engine: sync and async, DictLoader and
     CachingDictLoader, with a given context_depth_limit."""
@@ -319,6 +356,17 @@ class Runner:
             makers += [(lambda: FileSystemLoader(root), False), (lambda: CachingFileSystemLoader(root), False)]
             if entry[0] == "direct" and entry[1] in srcs:
                 makers.append((lambda: DictLoader(dict(srcs)), True))      # from_string(leaf) + extends
+        if opts.get("tagloader"):
+            # a tag-aware loader as in docs/loading_templates.md: `extends` targets live in layouts/,
+            # include / render targets in snippets/, everything else in pages/; every name exists in
+            # all three places, with the real template only where the chain must look for it
+            entered = [entry[1]] if entry[0] == "direct" else [n for _, n in entry[1]]
+            store: dict[str, str] = {}
+            for k, v in srcs.items():
+                store["layouts/" + k] = v
+                store["pages/" + k] = v if (entry[0] == "direct" and k in entered) else "partial-base(" + k + ")"
+                store["snippets/" + k] = v if (entry[0] != "direct" and k in entered) else "snippet(" + k + ")"
+            makers += [(lambda: _tag_loader_classes()[0](store), False), (lambda: _tag_loader_classes()[1](store), False)]
         outs = []
         self.n_history = 0
         if before is not None:
@@ -1098,6 +1146,7 @@ def same_basename(case: tuple, scheme: int = 0) -> tuple:
     entry2 = ("direct", nm(entry[1])) if entry[0] == "direct" else ("wrap", [(r_, nm(n)) for r_, n in entry[1]])
     opts = dict(case[4]) if len(case) > 4 else {}
     opts["more"] = True
+    opts["tagloader"] = True
     return ({nm(k): _map_items(v, f) for k, v in tpls.items()}, entry2) + case[2:4] + (opts,)
 
 
@@ -1168,21 +1217,21 @@ def choice_history_case(r, case: tuple) -> tuple | None:
 # legal chains and genuine cycles through names with a repeated last component
 NAME_CORPUS: list[tuple] = [
     ({"base": [("T", "["), ("B", "a", False, [("T", "r0")], None), ("T", "]")],
-      "admin/base": [("E", "base"), ("B", "a", False, [("T", "a1"), ("S",)], None)]}, ("direct", "admin/base"), 30, True, {"more": True}),
+      "admin/base": [("E", "base"), ("B", "a", False, [("T", "a1"), ("S",)], None)]}, ("direct", "admin/base"), 30, True, {"more": True, "tagloader": True}),
     ({"x": [("T", "["), ("B", "a", False, [("T", "r0")], None), ("T", "]")],
       "b/x": [("E", "x"), ("B", "a", False, [("T", "b1"), ("S",)], None)],
-      "a/x": [("E", "b/x"), ("B", "a", False, [("T", "a2"), ("S",)], None)]}, ("direct", "a/x"), 30, True, {"more": True}),
+      "a/x": [("E", "b/x"), ("B", "a", False, [("T", "a2"), ("S",)], None)]}, ("direct", "a/x"), 30, True, {"more": True, "tagloader": True}),
     ({"x": [("T", "["), ("B", "a", False, [("T", "r0")], None), ("T", "]")],
       "b/x": [("E", "x")], "a/x": [("E", "b/x"), ("B", "a", False, [("T", "a2")], None)]},
-     ("wrap", [(False, "a/x"), (True, "a/x"), (False, "b/x")]), 30, True, {"more": True}),
+     ("wrap", [(False, "a/x"), (True, "a/x"), (False, "b/x")]), 30, True, {"more": True, "tagloader": True}),
     ({"layouts/page": [("E", "page")], "page": [("T", "p0"), ("B", "a", False, [], None)],
       "site/layouts/page": [("E", "layouts/page"), ("B", "a", False, [("T", "s1")], None)]},
-     ("direct", "site/layouts/page"), 30, True, {"more": True}),
+     ("direct", "site/layouts/page"), 30, True, {"more": True, "tagloader": True}),
     # genuine cycles must still be refused
-    ({"x": [("E", "a/x")], "b/x": [("E", "x")], "a/x": [("E", "b/x")]}, ("direct", "a/x"), 30, True, {"more": True}),
-    ({"a/x": [("E", "a/x")]}, ("direct", "a/x"), 30, True, {"more": True}),
-    ({"x": [("E", "b/x")], "b/x": [("E", "x")], "a/x": [("E", "b/x")]}, ("wrap", [(True, "a/x")]), 30, True, {"more": True}),
-    ({"d/t": [("E", "t"), ("T", "q1")], "t": [("E", "d/t")]}, ("direct", "d/t"), 30, True, {"more": True}),
+    ({"x": [("E", "a/x")], "b/x": [("E", "x")], "a/x": [("E", "b/x")]}, ("direct", "a/x"), 30, True, {"more": True, "tagloader": True}),
+    ({"a/x": [("E", "a/x")]}, ("direct", "a/x"), 30, True, {"more": True, "tagloader": True}),
+    ({"x": [("E", "b/x")], "b/x": [("E", "x")], "a/x": [("E", "b/x")]}, ("wrap", [(True, "a/x")]), 30, True, {"more": True, "tagloader": True}),
+    ({"d/t": [("E", "t"), ("T", "q1")], "t": [("E", "d/t")]}, ("direct", "d/t"), 30, True, {"more": True, "tagloader": True}),
 ]
 
 
@@ -1309,6 +1358,28 @@ def observe_all(cases: list[tuple[dict, tuple, int]]) -> list[tuple]:
     return [x for r in res for x in r]
 
 
+STATEFUL_BASE = ("{% for i in (1..3) %}{% block b %}{% cycle 'a','b' %}{% increment n %}{% endblock %}{% endfor %}|{{ n }}"
+                 "{% for i in (1..6) limit: 2 %}{{ i }}{% endfor %}{% block x %}{% for i in (1..6) offset: continue limit: 2 %}"
+                 "{{ i }}{% endfor %}{% endblock %}")
+
+
+def observe_stateful() -> tuple | None:
+    """(pages of the base on its own, pages through a leaf that extends it), each sync and async."""
+    from liquid2 import DictLoader, Environment
+    loop = asyncio.new_event_loop()
+    try:
+        out = []
+        for name in ("base", "leaf"):
+            env = Environment(loader=DictLoader({"base": STATEFUL_BASE, "leaf": "{% extends 'base' %}"}))
+            try:
+                out.append((env.get_template(name).render(), loop.run_until_complete(env.get_template(name).render_async())))
+            except Exception as e:  # noqa: BLE001
+                out.append((type(e).__name__,) * 2)
+        return out[0], out[1]
+    finally:
+        loop.close()
+
+
 def expected_by_spec(tpls: dict, names: list[str], suppress: bool = True) -> tuple | None:
     parts = [pyspec(tpls, n, 0, suppress) for n in names]
     if any(p is None for p in parts):
@@ -1396,6 +1467,12 @@ def main(chk: C.Check, build: C.Build) -> None:
             v = same_basename(c, r.randint(0, 1))
             cases.append(markupify(v, r.choice(MARKUP_MODES)) if r.random() < 0.2 else v)
             n_basename += 1
+    n_tagloader = 0
+    for c in cases[n_fixed:]:
+        if len(c) <= 4 and r.random() < 0.025:     # the plain chain again, also through the tag-dispatching loaders
+            c4 = tuple(c) + ((True,) if len(c) == 3 else ())
+            cases.append(c4[:4] + ({"tagloader": True},))
+            n_tagloader += 1
     for c in super_chains():
         for mode in MARKUP_MODES:
             cases.append(markupify(c, mode))
@@ -1441,7 +1518,7 @@ def main(chk: C.Check, build: C.Build) -> None:
     dist = {"ok": 0, "TemplateInheritanceError": 0, "RequiredBlockError": 0, "TemplateNotFoundError": 0,
             "ContextDepthError": 0, "RecursionError": 0, "other": 0, "oracle_checked": 0, "wrapped": 0,
             "spec_evaluated_in_coq": 0, "retied_at_limit_8": 0, "suppression_off": 0, "auto_escape_on": 0,
-            "markup_as_render_data": 0, "file_system_loaders_and_from_string": 0,
+            "markup_as_render_data": 0, "file_system_loaders_and_from_string": 0, "tag_dispatching_loaders": 0,
             "blank_body_suppressed": 0}
     nontriv: set[str] = set()
 
@@ -1460,7 +1537,8 @@ def main(chk: C.Check, build: C.Build) -> None:
             return None
         if any(o != outs[0] for o in outs):
             chk.finding("oracle:sync-async-or-caching-differ",
-                        f"(DictLoader, CachingDictLoader[, FileSystemLoader, CachingFileSystemLoader, from_string]) x (sync, async) gave {outs}",
+                        f"(DictLoader, CachingDictLoader[, FileSystemLoader, CachingFileSystemLoader, from_string][, tag-dispatching loader, "
+                        f"caching tag-dispatching loader]) x (sync, async) gave {outs}",
                         {"templates": {k: to_src(v) for k, v in tpls.items()}, "entry": entry,
                          "context_depth_limit": limit, "outcomes": outs})
             return None
@@ -1469,7 +1547,7 @@ def main(chk: C.Check, build: C.Build) -> None:
     for (tpls, entry, limit, suppress, opts), (outs, outs8, n_hist) in zip(cases, observed):
         src = {k: to_src(v) for k, v in tpls.items()}
         for k_, d_ in (("ae", "auto_escape_on"), ("data", "markup_as_render_data"),
-                       ("more", "file_system_loaders_and_from_string")):
+                       ("more", "file_system_loaders_and_from_string"), ("tagloader", "tag_dispatching_loaders")):
             if opts.get(k_):
                 dist[d_] += 1
         names = [entry[1]] if entry[0] == "direct" else [n for _, n in entry[1]]
@@ -1619,6 +1697,19 @@ def main(chk: C.Check, build: C.Build) -> None:
                         f"a block-bearing template that does not extend, rendered from inside a chain: implementation "
                         f"gave {o}, its own definitions give {exp}", replay)
 
+    # known finding: stateful tags inside a block lose their state when the block is rendered through a
+    # chain (the block-scoped copy of the render context starts with empty counters / tag namespace).
+    # The witness is a raw Liquid source (stateful tags are outside the model): a base rendered on its
+    # own and through a leaf that overrides nothing must give the same page.
+    stateful = observe_stateful()
+    if stateful is not None:
+        direct, through = stateful
+        if direct != through:
+            chk.finding("stateful-tags-in-a-block-lose-their-state-through-a-chain",
+                        f"base {STATEFUL_BASE!r} renders {direct} on its own and {through} through {{% extends %}} "
+                        f"from a leaf that overrides nothing",
+                        {"base": STATEFUL_BASE, "direct": direct, "through_extends": through})
+
     C.correspond(chk, "c08", IMPORTS, DEFS + "\n" + "\n".join(interned.defs), items,
                  what="Inherit.render_name/run_wrapper and spec_inherit", shard=400)
     C.proofs_verdict(chk, proofs_ok)
@@ -1656,6 +1747,7 @@ def main(chk: C.Check, build: C.Build) -> None:
         "same_basename_variants": n_basename,
         "parent_edited_on_disk_between_renders": n_history,
         "choice_loader_histories": n_choice,
+        "also_through_tag_dispatching_loaders": n_tagloader + n_basename,
         "blocks_inside_container_tags": n_container,
         "nested_chain_cases_checked_against_python_specification": n_nested_ok,
         "block_bearing_partials_rendered_inside_a_chain": n_partial,
